@@ -417,7 +417,7 @@ func workerDoneOnce(c *Ctx) {
 			return nil, false
 		},
 		EveryCall: func(x *Exec, call *ast.CallExpr, s St) []St {
-			if sel, ok := call.Fun.(*ast.SelectorExpr); ok && sel.Sel.Name == "Done" && strings.HasSuffix(exprStr(sel.X), ".wg") {
+			if fullCalleeName(x.Fn.Info, call) == "sync.(WaitGroup).Done" {
 				R.Check(s.Get("wgdone") != "1", "R14i", c.Cfg+"containsWorker:iteration:done-once", c.P.Pos(call.Pos()),
 					"req.wg.Done() is not called twice in one iteration", "req.wg.Done() can be called twice for one request (negative WaitGroup counter panics)", x.Trace()...)
 				return []St{s.Set("wgdone", "1")}
@@ -425,6 +425,7 @@ func workerDoneOnce(c *Ctx) {
 			return []St{s}
 		},
 	})
+	b.InlineOwnHelpers()
 	x := NewExec(c.P.FlowOf(fi), b)
 	x.Run(newSt())
 	R.Check(n > 0, "R14i", c.Cfg+"containsWorker:iterations", "", "iteration ends of the worker loop were analysed", "none found")
